@@ -61,7 +61,9 @@ def registry(tier):
     return envs + small + rest + g1
 
 
-def leaves_close(a, b, rtol, atol):
+def leaves_close(a, b, rtol, atol, leaf_scale=False):
+    """elementwise |x-y| <= atol + rtol*|y|; with leaf_scale the relative part refers to the largest magnitude of the leaf
+    (physics vectors: accelerations / constraint forces of magnitude 1e3 carry float32 noise of 1e-3 in every component)"""
     la, lb = jax.tree.leaves(a), jax.tree.leaves(b)
     if len(la) != len(lb):
         return False, "leaf-count"
@@ -72,6 +74,12 @@ def leaves_close(a, b, rtol, atol):
         if x.dtype.kind in "biu" or y.dtype.kind in "biu":
             if not np.array_equal(x, y):
                 return False, "int/bool leaf differs"
+        elif leaf_scale and x.size:
+            fin = np.isfinite(y)
+            scale = float(np.max(np.abs(y[fin]))) if np.any(fin) else 0.0
+            if not (np.array_equal(np.isnan(x), np.isnan(y)) and np.all(np.abs(np.where(fin, x - y, 0.0)) <= atol + rtol * max(1.0, scale))
+                    and np.array_equal(x[~fin & ~np.isnan(y)], y[~fin & ~np.isnan(y)])):
+                return False, f"max abs diff {float(np.nanmax(np.abs(x - y))):.3g} (leaf scale {scale:.3g})"
         elif not np.allclose(x, y, rtol=rtol, atol=atol, equal_nan=True):
             return False, f"max abs diff {float(np.nanmax(np.abs(x - y))):.3g}"
     return True, ""
@@ -229,11 +237,13 @@ def exercise(name, ctor, rng, horizon, seed):
                    "reward": (env.reward(s, a, n_j, key=k) if classic else comps_j["reward"](s, a, n_j, k), comps_j["reward"](s, a, n_j, k), None),
                    "terminal": (env.terminal(n_j, key=k) if classic else comps_j["terminal"](n_j, k), comps_j["terminal"](n_j, k), None)}
             for comp, (eager, jit_, vm) in res.items():
-                ok, why = leaves_close(eager, jit_, 2e-4 if classic else 2e-3, 2e-5 if classic else 2e-4)
+                ok, why = leaves_close(eager, jit_, 2e-4, 2e-5 if classic else 2e-4, leaf_scale=not classic)
                 if not ok:
                     out["c12"].append({"what": f"{comp}: eager vs jit differ: {why}", "i": i})
                 if vm is not None:
-                    ok, why = leaves_close(jit_, vm, 2e-4 if classic else 2e-3, 2e-5 if classic else 2e-4)
+                    # MuJoCo / G1: float32 reassociation under vmap shows up at 1e-6..1e-5 of the magnitude of each physics
+                    # vector (measured: the same as the effect of a 1-ulp perturbation of the input state)
+                    ok, why = leaves_close(jit_, vm, 2e-4, 2e-5 if classic else 2e-4, leaf_scale=not classic)
                     if not ok:
                         out["c12"].append({"what": f"{comp}: jit vs vmap differ: {why}", "i": i})
     out["c01_rec"] = rec
